@@ -124,9 +124,9 @@ var cfgC09 = reg(PropCfg{
 
 var cfgC06 = reg(PropCfg{
 	ID: "C06",
-	Profile: &Profile{PReimport: 3, Weights: map[string]int{WrkReg: 12, WrkRec: 22, WrkPur: 12, BcnReg: 10, BcnRec: 18, BcnPur: 10, BankSend: 6, EntRaise: 8, EntDecide: 14, StrCreate: 2, FeeGrantOp: 5},
+	Profile: &Profile{PReimport: 3, Weights: map[string]int{WrkReg: 12, WrkRec: 22, WrkPur: 12, BcnReg: 10, BcnRec: 18, BcnPur: 10, BankSend: 6, EntRaise: 8, EntDecide: 14, StrCreate: 2, FeeGrantOp: 9},
 		MinBlocks: 6, MaxBlocks: 25, MaxTxs: 6, MaxOps: 4, PUpper: 3, PActor: 4, PNamed: 1, PFault: 3, PExec: 12, PGovParams: 8, PBadRef: 3, TinyLimits: false,
-		ValidParams: true, GovKinds: []string{ParamsWrk, ParamsBcn}, PCheck: 60, LockedActors: true, PGranter: 15, NodeMinGas: true, RegDenomMix: true, HugeFeeParams: true,
+		ValidParams: true, GovKinds: []string{ParamsWrk, ParamsBcn}, PCheck: 60, LockedActors: true, PGranter: 25, NodeMinGas: true, RegDenomMix: true, HugeFeeParams: true,
 		FeeModes: []int{FeeExact, FeeExact, FeeExact, FeeNone, FeeLower, FeeHigher, FeeExactPlusExtraDenom, FeeOnlyExtraDenom, FeeLowerPlusExtraDenom, FeeHigherPlusExtraDenom, FeeFirstModuleOnly, FeeSubset, FeeSubset}, MultiPct: 30, PSameKind: 50, PFeePayer: 8},
 	Rule: "history containing >=1 CheckTx of a tx with >=1 WRKChain/BEACON operation and valid signature/sequence (reaches the fee decorators); distinct by scenario hash",
 	NonTrivial: func(w *World) bool { return w.Classes["c06.feeop-tx-reaching-fee-checks"] > 0 },
